@@ -35,6 +35,10 @@ Property clause → theorem
           disappeared, each is settled with refund = unspent offer; the replace appends the new ones),
         `mm_cancel_cancels_indexed` (any state: every order listed in the index is ended),
         `mm_cancel_cancels_all_counterexample` (the lookup as it stands in swap.go:559: app 2 / pair 1 — defect D4)
+* (round 5, seed s87) the registered store migration 1 → 2 (`Migrator.Migrate1to2`, legacy/v2/store.go) is an operation of the
+  model (`Op.migrate`): `migration_preserves_orders` (identity on bank, pairs, requests, indexes, farmers and on every field of
+  every order except its type; fee reserves unchanged); the ledger invariant and the index invariant are preserved
+  (`migrate_inv`, `idx_migrate`), so every theorem here covers histories with migrations
 * (round 5) the order price, the tick grid, the price limits around the pair's last price, `MMOrderTicks` and the offer / demand
   denom checks are part of the model (`orderPrice`, `mmTicks`, `placeOrderMsg`, `mmOrderMsg`): `placement_takes_exactly` states
   the recorded price as `orderPrice` of the message price
@@ -256,6 +260,55 @@ theorem mm_cancel_cancels_indexed {cfg : Cfg} (hsw : cfg.swapLookup = false) {s 
   rw [← hpi] at hidx ⊢
   exact cancelMMCore_all hsw hidx h
 
+/-! ### the store migration 1 → 2 (`Migrator.Migrate1to2`) -/
+
+/-- everything of an order record except its type -/
+def orderAmounts (o : Order) :=
+  (o.key, o.owner, o.buy, o.od, o.dd, o.price, o.amount, o.openAmt, o.offer, o.remaining, o.received, o.status, o.batch, o.expireAt,
+   o.taken, o.refunded, o.feeFwd)
+
+/-- **The store migration is the identity on what the property speaks about**: no coin moves, pairs / requests / MM indexes /
+farmers are untouched, every order keeps its key, owner, offer coin, REMAINING offer coin, received coin, open amount, status,
+batch and expiry and its fee reserve; only the order type is rewritten (`market` becomes `limit` — same fee rule), and pool
+records keep everything but the `ranged` flag.  With `step_inv` (`reachable_inv`) every theorem of this file holds for
+histories that contain migrations: an order that is partially filled, lives through the migration and is cancelled / expires
+afterwards is settled by `terminated_settled`'s formula. -/
+theorem migration_preserves_orders {cfg : Cfg} {s s' : State} (h : step cfg s .migrate = some s') :
+    s'.bank = s.bank ∧ s'.pairs = s.pairs ∧ s'.deps = s.deps ∧ s'.wdrs = s.wdrs ∧ s'.mm = s.mm ∧ s'.farmers = s.farmers ∧
+    s'.orders.map orderAmounts = s.orders.map orderAmounts ∧
+    (∀ r, s'.orders.map (feeRes r) = s.orders.map (feeRes r)) ∧
+    s'.pools.map (fun q => (q.app, q.id, q.pair, q.disabled, q.ps, q.lastDep, q.lastWdr)) =
+      s.pools.map (fun q => (q.app, q.id, q.pair, q.disabled, q.ps, q.lastDep, q.lastWdr)) := by
+  simp only [step] at h
+  unfold migrate at h
+  split at h
+  · rename_i hv
+    cases h
+    obtain ⟨hty, -, -⟩ := hv
+    refine ⟨rfl, rfl, rfl, rfl, rfl, rfl, ?_, ?_, ?_⟩
+    · show (s.orders.map _).map orderAmounts = _
+      rw [List.map_map]
+      apply List.map_congr_left
+      intro o _
+      simp only [Function.comp]
+      split <;> rfl
+    · intro r
+      show (s.orders.map _).map (feeRes r) = _
+      rw [List.map_map]
+      apply List.map_congr_left
+      intro o ho
+      simp only [Function.comp]
+      split
+      · simp [feeRes, hty o ho]
+      · rfl
+    · show (s.pools.map _).map _ = _
+      rw [List.map_map]
+      apply List.map_congr_left
+      intro q _
+      simp only [Function.comp]
+      split <;> rfl
+  · cases h
+
 /-! ### Defect D4: with the lookup as it stands in swap.go:559 the claim is false for app id ≠ pair id -/
 
 def cfgD4 (swapped : Bool) : Cfg :=
@@ -360,5 +413,16 @@ example : (after (cfgD4 false) fundsD4 opsLife).bal (.pairEscrow 1 1) (.coin 1) 
     (after (cfgD4 false) fundsD4 opsLife).bal (.swapFee 1 1) (.coin 1) = 1200 ∧
     (after (cfgD4 false) fundsD4 opsLife).bal (.user 1) (.coin 1) = 10000000 - 1003000 + 601800 := by
   decide +kernel
+
+/-- the partially filled seller of `opsLife` lives through the migration and cancels afterwards: refunded 600 000 + (3000 − 1200),
+forwarded 1200 — exactly as without the migration (the seeded change s87, which copies the OFFER coin into the remaining offer
+coin, makes the real chain refund 1 003 000 here) -/
+example : ((after (cfgD4 false) fundsD4 (opsLife.dropLast ++ [.migrate, .cancel 1 1 1 1])).orders.map
+      fun o => (o.id, o.status, o.taken, o.remaining, o.refunded, o.feeFwd)) =
+    [(1, .canceled, 1003000, 600000, 601800, 1200), (2, .completed, 401200, 0, 0, 1200)] := by
+  decide +kernel
+
+/-- and the migration is accepted there (the store is a version-1 store: no market-making orders, no ranged pools) -/
+example : (step (cfgD4 false) (after (cfgD4 false) fundsD4 opsLife.dropLast) .migrate).isSome = true := by decide +kernel
 
 end Comdex.C07
